@@ -357,3 +357,12 @@ RULES = [
     ("C07.R9", "T4", "link address classes (reserved / broadcast / self) equal the standard on both roles (shared with C06.R5)", r9),
     ("C07.R10", "T2/T8", "a frame's payload is its own: cleared before the body is read, every block behind its CRC test (shared with C06.R3)", r10),
 ]
+
+
+def r11(ctx):
+    """'acts only on traffic addressed to it': which addresses an endpoint answers to (own address, self address feature, broadcast
+    feature) reaches the link layer through constructor arguments - each is the parameter's namesake (shared helper)."""
+    arg_namesakes(ctx, ctx.prog)
+
+
+RULES.append(("C07.R11", "T8-namesake", "constructor arguments read from configuration are the parameter's namesake (no same-typed sibling swapped in)", r11))
